@@ -1191,7 +1191,12 @@ fn run_cmd(
             // fresh mock network for this run (drain any leftover first)
             while crate::network::verif_hook::take().is_some() {}
             crate::network::verif_hook::inject(build_network(remote));
-            let out = super::BasicTestOutput::new();
+            // `"enter": true` in a step's remote: a user who presses ENTER at every prompt (accepts what cargo-vet pre-selected)
+            let out = if remote["enter"].as_bool().unwrap_or(false) {
+                super::BasicTestOutput::with_callbacks(|_| Ok(String::new()), Ok)
+            } else {
+                super::BasicTestOutput::new()
+            };
             let dynout = out.clone().as_dyn();
             let r = catch_unwind(AssertUnwindSafe(|| dispatch(&dynout, &cfg)));
             let outcome = match r {
